@@ -278,6 +278,113 @@ def a4(prog, ctx):
         ctx.fail("A4", "find_key returns the first match", pubs[0].where, "; ".join(dict.fromkeys(why)), key="findkey-first")
 
 
+def a4_no_entry_passed_over(prog, ctx):
+    """A4 (converse): the scan passes an entry over only because one of its names differs.  A further filter in the loop
+    (a cached hash of the key compared first) is accepted when the cached field is kept equal to h(key) wherever a key is
+    stored; otherwise entries whose names do match become invisible to get/set."""
+    f = prog.fn("find_key")
+    cfg = f.cfg
+    lps = [x for x in f.walk() if x.k in ("ForStmt", "WhileStmt", "DoStmt") and any(c.j.get("callee") == "strcmp" for c in x.walk() if c.k == "CallExpr")]
+    if len(lps) != 1:
+        return
+    lp = lps[0]
+    hb = cfg.loop_header(lp)
+    nl = cfg.natural_loop(hb)
+
+    def is_namecmp(lit):
+        return (lit is not None and lit.kind == "truth" and lit.node.k == "CallExpr" and lit.node.j.get("callee") == "strcmp"
+                and any(render(a).endswith((".group", "->group", ".key", "->key")) for a in lit.node.call_args()))
+    others = []
+    for (b, i, s2) in cfg.edges():
+        if b not in nl or b == hb or s2 not in nl:
+            continue
+        lit = cfg.edge_lit(b, i)
+        if lit is None or is_namecmp(lit):
+            continue
+        # does this edge lead to the next round without a name comparison having failed and without a match?
+        pubs = set(cfg.block_of(st) for lhs, rhs, st, kind in query.stores(f) if render(lhs) == "*num")
+        if s2 == hb or hb in cfg.reachable(s2, avoid_blocks=pubs | set(bb for (bb, ii, ss) in cfg.edges() if is_namecmp(cfg.edge_lit(bb, ii)))):
+            others.append((lit, b, i))
+    if not others:
+        ctx.ok("A4", "find_key passes an entry over only when a name differs", lp.where, "the only tests in the scan are strcmp() on group and key")
+        return
+    for lit, b, i in others:
+        fld = None
+        local = None
+        if lit.kind == "eq":
+            for side, other in ((lit.lhs, lit.rhs), (lit.rhs, lit.lhs)):
+                s0 = side.strip()
+                if s0.k == "MemberExpr" and s0.j.get("rec") == "file_entry" and other.strip().k == "DeclRefExpr":
+                    fld, local = s0.j.get("member"), other.strip()
+        if fld is None:
+            ctx.inconclusive("A4", "find_key passes an entry over only when a name differs", lit.node.where,
+                             "the scan also skips entries on `%s`" % render(lit.node))
+            continue
+        from sa.dataflow import ReachingDefs
+        ds = ReachingDefs(f).reaching(local.j["name"], lit.node)
+        hcall = None
+        if len(ds) == 1 and ds[0].rhs is not None and ds[0].rhs.strip().k == "CallExpr" and render(ds[0].rhs.strip().call_args()[0]) == "key":
+            hcall = ds[0].rhs.strip().j.get("callee")
+        if hcall is None:
+            ctx.inconclusive("A4", "find_key passes an entry over only when a name differs", lit.node.where,
+                             "entries are skipped on .%s against `%s`, which is not h(key)" % (fld, render(local)))
+            continue
+        # coherence of the cached field with the key, wherever either is stored
+        bad, seen_sites = [], 0
+        for g in prog.lib_functions(with_helpers=False):
+            keyst, fst = {}, {}
+            for lhs, rhs, st, kind in query.stores(g):
+                l0 = lhs.strip()
+                if l0.k == "MemberExpr" and l0.j.get("rec") == "file_entry" and rhs is not None:
+                    base = render(l0.children[0])
+                    if l0.j.get("member") == "key":
+                        keyst.setdefault(base, []).append((st, rhs))
+                    elif l0.j.get("member") == fld:
+                        fst.setdefault(base, []).append((st, rhs))
+            for base, ks in keyst.items():
+                seen_sites += 1
+                if base not in fst:
+                    bad.append((ks[0][0], "%s stores %s.key but leaves .%s as it was" % (g.name, base, fld)))
+                    continue
+                for st2, r2 in fst[base]:
+                    r0 = r2.strip()
+                    while r0.k in ("ImplicitCastExpr", "ParenExpr", "CStyleCastExpr") and r0.children:
+                        r0 = r0.children[0].strip()
+                    if r0.k == "CallExpr" and r0.j.get("callee") == hcall:
+                        src = render(r0.call_args()[0])
+                        if src in ("%s.key" % base, "%s->key" % base):
+                            continue        # the hash of the key just stored
+                        srcs = set([src])
+                        a0 = r0.call_args()[0].strip()
+                        if a0.k == "ConditionalOperator":
+                            srcs = set(render(x) for x in a0.children[1:])
+                        whole = set()
+                        for st3, r3 in ks:
+                            k0 = r3.strip()
+                            if k0.k == "CallExpr" and k0.j.get("callee") == "strdup":
+                                whole.add(render(k0.call_args()[0]))
+                            elif k0.k == "CallExpr":
+                                whole.add("<%s>" % render(k0))
+                            else:
+                                whole.add(render(k0))
+                        if not whole <= srcs and not srcs <= set(x for x in whole if not x.startswith("<")) or any(x.startswith("<") for x in whole):
+                            bad.append((st2, "%s caches %s(%s) while the key it stores is %s" % (g.name, hcall, src, sorted(x.strip("<>") for x in whole))))
+                    elif r0.k == "MemberExpr" and r0.j.get("member") == fld:
+                        srcbase = render(r0.children[0])
+                        if not any(render(r3).replace(" ", "") in ("strdup(%s.key)" % srcbase, "%s.key" % srcbase, "strdup(%s->key)" % srcbase) for st3, r3 in ks):
+                            bad.append((st2, "%s copies .%s from %s but the key from elsewhere" % (g.name, fld, srcbase)))
+        if bad:
+            st2, why = bad[0]
+            ctx.fail("A4", "find_key passes an entry over only when a name differs", st2.where,
+                     "the scan skips entries whose .%s differs from %s(key), but %s: an entry whose names match is never found (get reports "
+                     "no key, set appends a second entry)" % (fld, hcall, why), key="findkey-filter:%s" % fld)
+        elif seen_sites:
+            ctx.ok("A4", "find_key passes an entry over only when a name differs", lit.node.where,
+                   "pre-filter on .%s; the field is stored as %s(<the key stored>) at all %d places that store a key" % (fld, hcall, seen_sites))
+        else:
+            ctx.inconclusive("A4", "find_key passes an entry over only when a name differs", lit.node.where, "no store of .key found")
+
+
 def a5(prog, ctx):
     f = prog.fn("setKeyValue")
     ctx.touch(f)
@@ -530,14 +637,58 @@ def a8(prog, ctx, getters, setters, defs):
             ctx.fail("A8", "the 8 %s agree" % fam, prog.fn(odd[0]).where, "%s differ(s) from %s in checks/calls/returns" % (odd, names[0]), key="siblings:%s" % fam)
 
 
+def a9(prog, ctx, getters, setters):
+    """A set creates or replaces an entry and a get looks the key up for EVERY acceptable call: the only calls an accessor
+    may turn down before it reaches the worker (setKeyValue / find_key) are those the statement names - no object, no key,
+    empty key (an allocation that failed is outside the claim)."""
+    for n in getters + setters:
+        f = prog.fn(n)
+        cfg = f.cfg
+        target = "find_key" if n in getters else "setKeyValue"
+        c = query.unique_call(f, target)
+        wb = cfg.block_of(c)
+        p = f.params[0]["name"]
+        allocated = set()
+        for lhs, rhs, st in f.assignments():
+            nm = lhs["name"] if isinstance(lhs, dict) else render(lhs)
+            if rhs is not None and re.search(r"\b(strdup|strndup|malloc|calloc|realloc)\(", render(rhs)):
+                allocated.add(nm)
+
+        def named_refusal(lit, b, i):
+            if cfg.blocks[b].succs[i] == wb:
+                return True
+            if lit is None or lit.pol:
+                return False
+            if lit.kind == "truth" and lit.atom in (p, "key", "*key", "key[0]", "strlen(key)"):
+                return True
+            if lit.kind == "lt" and "strlen(key)" in lit.atom and lit.lhs.const_value() == 0:
+                return True
+            if lit.kind == "truth" and lit.atom in allocated:
+                return True
+            return False
+        if wb == cfg.entry:
+            ok = True
+        else:
+            ok, _cut = cfg.all_paths_cut(cfg.exit, named_refusal)
+        if ok:
+            ctx.ok("A9", "%s turns down only calls without object or key" % n, c.where, "every path that leaves without %s() carries %s == NULL, key == NULL or an empty key" % (target, p))
+        else:
+            wp = cfg.feasible_reach(cfg.exit, named_refusal, lambda a: re.match(r"^\*?[A-Za-z_][\w$.]*$", a) is not None)
+            ctx.fail("A9", "%s turns down only calls without object or key" % n, c.where,
+                     "a call with an object and a non-empty key can return without reaching %s(): the operation is refused (or skipped) for arguments the "
+                     "map accepts" % target, key="refusal:%s" % n, path=cfg.describe_path(wp) if wp else None)
+
+
 def run(prog, ctx):
     getters, setters, defs = accessors(prog)
     a1(prog, ctx, getters + setters + defs + ["econf_getKeys", "econf_getGroups", "econf_getExtValue"])
     a2(prog, ctx, setters)
     a3(prog, ctx, getters, setters)
     a4(prog, ctx)
+    a4_no_entry_passed_over(prog, ctx)
     a5(prog, ctx)
     a6(prog, ctx, defs)
     a7(prog, ctx)
     a8(prog, ctx, getters, setters, defs)
+    a9(prog, ctx, getters, setters)
     ctx.floor("C11 public accessors", len(getters + setters + defs) + 3, 25)
